@@ -46,6 +46,7 @@ def run(tier):
     parts.append({'label': 'pretty-printed-running-orders', 'harness': HStory(pool=4, cap=3, max_list=2, rich=True, replace_variant=1, pretty_states=True,
                                                                                pretty_msgs=True, layouts=('between',)),
                   'monitors': mon, 'opts': {'max_depth': 0}})
+    parts.append({'label': 'other-envelope', 'harness': HMixed(envelope='trailing', init_shapes=[('A', 'AB'), ('AB', 'A', 'C')], layouts=('before',), max_list=1, story_L=1, meta_subsets=1, rich=True), 'monitors': mon, 'opts': {'max_depth': 0}})
     parts.append(live_part(tier, mon))
     return runner.graph_check(
         'C03', tier, parts, rule=RULE, vacuity=vacuity,
